@@ -5,7 +5,6 @@ NA = {
  "C01": "Convergence-order claim against the solution of an ODE on the ellipsoid: no finite-state or exactly representable abstraction, so TLC can evaluate neither side (DESIGN.md s1, s6).",
  "C03": "Accuracy of spline-derived IMU rates/forces against analytic kinematics 'within interpolation error that shrinks with the interval' is a limit statement over continuous trajectories; nothing discrete to explore.",
  "C04": "Compares a matrix of transcendental entries with finite-difference sensitivities of a float integrator within the size of neglected terms; numeric tolerance is the whole content.",
- "C05": "Left-inverse and first/second-order residual claims over continuous states are numeric; its only discrete clause (2D rows identically zero) is exercised under C13.",
  "C15": "Order of accuracy as the sampling interval shrinks is a limit statement; the row/stamp clause is part of the C19 schema check.",
  "C16": "Identities between transcendental functions over a continuum (geodetic round trips, derivatives, parity); no state, no exact domain.",
  "C17": "Trig round trips, exponential-map accuracy across a branch threshold and a Jacobian identity are numeric-accuracy claims with no discrete structure.",
@@ -78,6 +77,11 @@ CHECKS.update({
 })
 
 CHECKS.update({
+ "C05": dict(
+   text="ErrorTransform.tla describes the error-state coordinates on an exact domain (cube-group attitudes with pitch 0, integer velocities, both altitude modes) twice: transform_to_output / transform_to_internal as the code writes them ([[I,0,0],[0,I,skew(v)],[0,0,J]], its block inverse, the 2D variants through the 9x7 / 7x9 reduction matrices), and the first-order change of the state under the library's own correction (p (-) DR, (I + phi x)(v - DV), (I + phi x) C) read in output coordinates, where the Euler-angle Jacobian is DERIVED from the differentials of atan2 / asin of the rotation-matrix entries in integer algebra. TLC checks in every configuration OutputIsDerivative, JOrthogonal, LeftInverse (both modes), Rows2DZero, Dims and rejects a sign-slip variant. Every configuration is then built with the real InsErrorModel: both transforms == the model (attitude rows x 180/pi, attitude columns of the inverse x pi/180: the units), their real product == I, the derivative of the REAL correct_pva read through the REAL compute_state_difference == transform_to_output (central difference; integer entries after removing the unit factor, so the comparison is a rounding), perturb_pva followed by correct_pva with the corresponding internal vector restores the state to SECOND order (the order is measured from three scales and rounded - a discrete observable), in 2D a correction leaves altitude and VD bit-identical and the down/VD rows are exactly zero, stacked form == per-row form, label-permuted Pva.",
+   note="Decided on the exact domain only: the Euler-angle Jacobian at non-zero pitch and behaviour near the pitch singularity are numeric and not decided; components of the restore residual below the representation floor (1e-7 m, 1e-11) are not judged.",
+   technique="TLA+ model in exact integer first-order algebra (ErrorTransform.tla) checked with TLC over all configurations + replay of every enumerated configuration into the real InsErrorModel, incl. the derivative of the real correction and the measured restore order",
+   ref="DESIGN.md s6 C05"),
  "C11": dict(
    text="Partial claim - the discrete part of 'the feedforward filter is the optimal estimator of its model'. The property is decomposed: (1) each measurement step is the exact Bayesian update (C07), (2) each propagation uses the exact transition/noise integral (C08), (3) the joint system: JointSystem.tla gives, for every configuration (mode x gyro mask x accel mask), the block offsets, the may-be-non-zero patterns and the BLOCK TERMS of F, G, q, P0 and the measurement matrix as formulas over the public pieces (system_matrices, the sensor models' F/G/H(r)/J/P/q/v, transform_to_internal, the measurement model's H); TLC checks their mutual consistency (TermsMatchSupport, NoiseOrder, NoiseRouting, QStructure, WalkOwnBias, ...); (4) the time grid (FeedforwardLoop.tla, exhaustive, as C10); (5) the dataflow: on real executions (TLC-simulated configurations, corner and seeded random float schedules, all sensor-model kinds, both modes) the harness keeps its own copy of what x and P must be (P0 assembled from the block terms; every kalman.correct output; Phi x and Phi P Phi' + Qd with Phi, Qd as compute_process_matrices returned them) and FeedforwardFilterTrace.tla judges every observed call: correct() is given the current x and P and the (z, H placed in the INS block, R) its measurement model returned; the measurement models see the computed trajectory interpolated at the epoch; compute_process_matrices is given the joint (F, Q) of the block terms at the mid-point state with the increments of exactly that interval and dt = the advance of the result index; result rows (sensor tables = x blocks, sd = sqrt diag(T P T'), compensated trajectory = computed - T x, innovations = what correct returned) are those of the (x, P) held when the row was recorded. Values are compared at 1e-9 relative (contract); the bit-identical id chain is walked by the trace specification as refinement.",
    note="NOT decided: the numeric comparison with an independent one-shot Gauss-Markov solution. It follows from (1)-(5) by the Kalman filter theorem, which is trusted; C07/C08 are decided on exact domains only; the attitude averaging of the filter's private interpolation helper is taken as given (position/velocity interpolation is checked).",
@@ -85,7 +89,7 @@ CHECKS.update({
    ref="DESIGN.md s6 C11"),
 })
 
-ORDER = ["C02", "C06", "C07", "C08", "C09", "C10", "C11", "C12", "C13", "C14", "C18", "C19"]
+ORDER = ["C02", "C05", "C06", "C07", "C08", "C09", "C10", "C11", "C12", "C13", "C14", "C18", "C19"]
 m = {
  "version": 1,
  "setup_cmd": "true",
